@@ -32,7 +32,7 @@ PROPS = {
             "run_executor_phase runs its action exactly once on the calling thread",
         ],
         "assumptions": ["requests made from other threads while a simulation runs are outside the contracts"],
-        "not_decided": ["wake-ups inside map_/mesh children (their own queues)", "nested delegation (C09 kernels)"],
+        "not_decided": ["wake-ups inside mesh / tsl_map children and reduce_ combiners (their own queues and re-arm rules; map_ is under contract)", "nested delegation beyond the C09 kernels"],
     },
     "C14": {
         "modules": ["contracts.c14_lifecycle", "contracts.c02_graph_sched", "contracts.c17_executor",
